@@ -1063,6 +1063,137 @@ func (c *c28Ctx) poisonCase(s *c28Seq, n int, single bool) {
 	}
 }
 
+// retainedFamily: results handed out by the accumulator / merkle tree must not
+// change when the accumulator is used further. Three live accumulators (own
+// buckets) add h_0..h_top-1; at EVERY length L<=retainUpTo one of them is asked
+// Finalize(), one GetMerkleHeader(), one both; the returned headers are KEPT
+// together with a deep copy taken immediately. After every further Add every
+// kept header must still equal its deep copy and the reference header of the
+// first L hashes. For L<=64 and the special L the proofs Prove(0,0), Prove(L-1,0)
+// of a tree opened on the finalized header are kept in the same way and
+// compared after all other keys were proven and at the very end.
+func (c *c28Ctx) retainedFamily(s *c28Seq, top, retainUpTo int) {
+	hash := func(i int) []byte {
+		var in [8]byte
+		binary.BigEndian.PutUint64(in[:], uint64(i))
+		h := sha3.Sum256(in[:])
+		return h[:]
+	}
+	type kept struct {
+		how   string
+		l     int
+		hd    *hexary.MerkleHeader
+		root  []byte
+		proof [][]byte
+		pcopy [][]byte
+		key   int
+	}
+	special := c28Special(top)
+	var all []*kept
+	hows := []string{"Finalize", "GetMerkleHeader", "Finalize+GetMerkleHeader"}
+	accs := make([]hexary.Accumulator, 3)
+	trees := make([]*c28Bucket, 3)
+	for i := range accs {
+		trees[i] = &c28Bucket{}
+		a, err := hexary.NewAccumulator(trees[i], &c28Bucket{}, "")
+		if err != nil {
+			panic(err)
+		}
+		accs[i] = a
+	}
+	keep := func(how string, l int, hd *hexary.MerkleHeader) {
+		all = append(all, &kept{how: how, l: l, hd: hd, root: append([]byte(nil), hd.RootHash...)})
+	}
+	check := func(n int) bool {
+		ok := true
+		for _, k := range all {
+			cs := C28Case{Seq: s.name, Kind: "retained", N: n, L: k.l}
+			if k.hd != nil {
+				if k.hd.Leaves != int64(k.l) || !bytes.Equal(k.hd.RootHash, k.root) || (k.l < len(s.ref) && !bytes.Equal(k.hd.RootHash, s.ref[k.l])) {
+					c.r.Violation("retained-header-changed:"+k.how+":"+c28Pow16Rel(k.l), fmt.Sprintf("header returned by %s at length %d was {%x,%d}; after the accumulator grew to %d the SAME header object reads {%x,%d}", k.how, k.l, k.root, k.l, n, k.hd.RootHash, k.hd.Leaves), cs)
+					k.hd = nil // report once
+					ok = false
+				}
+			}
+			if k.proof != nil {
+				same := len(k.proof) == len(k.pcopy)
+				for i := 0; same && i < len(k.proof); i++ {
+					same = bytes.Equal(k.proof[i], k.pcopy[i])
+				}
+				if !same {
+					c.r.Violation("retained-proof-changed:"+c28Pow16Rel(k.l), fmt.Sprintf("proof of key %d returned by Prove at length %d changed later (n=%d)", k.key, k.l, n), cs)
+					k.proof = nil
+					ok = false
+				}
+			}
+		}
+		c.add("retained_comparisons", int64(len(all)))
+		return ok
+	}
+	if p := ev.Catch(func() {
+		for n := 0; n <= top; n++ {
+			if n > 0 {
+				for _, a := range accs {
+					if err := a.Add(hash(n - 1)); err != nil {
+						panic(err)
+					}
+				}
+				check(n)
+			}
+			if n > retainUpTo {
+				continue
+			}
+			f0, err := accs[0].Finalize()
+			if err != nil {
+				panic(err)
+			}
+			keep(hows[0], n, f0)
+			keep(hows[1], n, accs[1].GetMerkleHeader())
+			f2, err := accs[2].Finalize()
+			if err != nil {
+				panic(err)
+			}
+			keep(hows[2]+":finalize", n, f2)
+			keep(hows[2]+":get", n, accs[2].GetMerkleHeader())
+			if n > 0 && (n <= 64 || special[n]) {
+				prover, err := hexary.NewMerkleTree(trees[0], &hexary.MerkleHeader{RootHash: append([]byte(nil), f0.RootHash...), Leaves: f0.Leaves}, -1)
+				if err != nil {
+					panic(err)
+				}
+				var mine []*kept
+				for _, key := range []int{0, n - 1} {
+					pf, err := prover.Prove(int64(key), 0)
+					if err != nil {
+						panic(fmt.Sprintf("Prove(%d) at %d: %v", key, n, err))
+					}
+					k := &kept{how: "Prove", l: n, proof: pf, pcopy: c28CloneProof(pf), key: key}
+					all = append(all, k)
+					mine = append(mine, k)
+				}
+				for key := 0; key < n; key++ { // churn the prover's cache
+					if _, err := prover.Prove(int64(key), -1); err != nil {
+						panic(err)
+					}
+				}
+				check(n)
+				// a kept proof is still accepted
+				for _, k := range mine {
+					if k.proof != nil {
+						if err := c28Fresh(f0).Add(int64(k.key), hash(k.key), c28CloneProof(k.proof)); err != nil {
+							c.r.Violation("valid-proof-rejected:retained", fmt.Sprintf("n=%d key=%d: %v", n, k.key, err), C28Case{Seq: s.name, Kind: "retained", N: n, L: n})
+						}
+					}
+				}
+			}
+			check(n)
+		}
+		check(top)
+	}); p != "" {
+		c.r.Violation("retained-panic", p, C28Case{Seq: s.name, Kind: "retained"})
+	}
+	c.add("retained_results_kept", int64(len(all)))
+}
+
 // build runs phase 1 for a sequence: a master accumulator adds the hashes one
 // by one (its tree bucket is the shared log), a second accumulator is
 // re-opened from its own buckets before every add; both must agree with the
@@ -1159,12 +1290,13 @@ func TestVerifC28(t *testing.T) {
 	maxN := r.Pick(300, 4200)
 	small := r.Pick(300, 1000) // every (N,l) pair and every key up to here
 	constN := 300
-	forkAll := r.Pick(96, 200)      // every (N,l) fork pair up to here
-	warmAll := r.Pick(48, 300)      // warm-up soundness cases for every N up to here (plus 272, 300 and the special N)
+	forkAll := r.Pick(96, 200) // every (N,l) fork pair up to here
+	warmAll := r.Pick(48, 300) // warm-up soundness cases for every N up to here (plus 272, 300 and the special N)
+	retainTop, retainUpTo := r.Pick(700, 4200), r.Pick(300, 1100)
 	poisonAll := r.Pick(48, 300)    // failed-Add-then-genuine cases for every N up to here (plus 272, 300, special N)
 	poisonSingle := r.Pick(40, 300) // ... with one tree per single failed Add up to here (above: all failed Adds on one tree)
 	c := &c28Ctx{r: r, readd: 17, maxSmall: r.Pick(64, 300)}
-	r.Rule(fmt.Sprintf("hash sequence h_i = SHA3(i) ('distinct') for N = 0..%d and the constant sequence ('constant', positive checks only) for N = 0..%d; phase 1: header after every add of a live accumulator and of one re-opened from its buckets before every add, against the reference root; in every situation ALL header-returning entry points are compared with the reference: Len, GetMerkleHeader and Finalize in both orders and repeated, proofs of the first and last key against the finalized header, and the view of an accumulator re-opened from the buckets; phase 1 also on a live accumulator finalized after every add; phase 2 on exact copies of the buckets after N adds: 'header' every N (re-opened, also after the no-op SetLen(N)); 'proof' every N<=%d with every key, larger N with key boundaries and every 16th key: Prove(key,0) accepted by a fresh tree made from the header, and for the distinct sequence rejected with another hash, as key+1/key-1, with one byte flipped in each level, with each level dropped; keys in order with Prove(key,-1) into one tree (N<=%d and the special N); 'rewind' SetLen(l): every pair l<=N<=%d, for larger N: every l for N in {16^k-1,16^k,16^k+1,%d} and l in {0,N-1,N-15,N-16,N-17,16^k-1,16^k,16^k+1} for every N; each rewind on two copies (Finalize asked first / GetMerkleHeader asked first; for odd N+l the N-state is finalized before the rewind): immediately after SetLen(l), before any Add, all entry points incl. the re-opened view (for l=0 the re-opened view is only an observation) = reference of the prefix; SetLen(l+1) fails; re-add (all up to N for N<=%d, else %d) with all entry points after every add; proofs of keys l-1,l; second rewind to l/2 with all entry points; 'fork' (distinct sequence): every l<N<=%d and the boundary l (0,1,N-1,N-2,N-15..N-17,16^k-1..16^k+1, multiples of 16) for larger N: all entry points asked at N, SetLen(l), DIFFERENT hashes added, 3 variants (no query before reaching N again then N+1; grown to N+2 and rewound to N; queries at an intermediate length), all entry points incl. proofs of the new leaves against the reference of the forked sequence; 'warm' (distinct sequence): every N<=%d and N in {272,300, 16^k-1,16^k,16^k+1, max} x every warm-up key w (N<=%d: all keys, else boundaries and every 16th) x 2 warm-up modes (full proof of w on an empty tree / keys 0..w in order with minimal proofs) on ONE tree instance x targets t in {w, w+-1, w+-16, w+-256, ends of w's 16- and 256-block, 0, N-1} x every proof depth Prove(t,from), from=-1,0..level x EVERY proof element: one byte flipped / replaced by another key's node must be rejected, also a wrong hash; afterwards the genuine proofs with known upper part are accepted; 'poison' (distinct sequence): every N<=%d and N in {272,300,special}: start states of one verifier tree {cold, full proof of w, keys 0..w in order; w in {0,1,15,16,17,N/2,N-1}} x ONE failing Add (N<=%d; for all N also ALL failing Adds in a row): every legal-length genuine partial proof Prove(t,from>=1) whose omitted upper nodes are unknown in that state, each of its elements with a flipped byte, each element of the full proof with a flipped byte (t = neighbours of w; cold: all keys for N<=40 else boundaries and every 16th) - then the genuine script on the same instance: Prove(t,0), Prove(lo,0), Prove(k,-1) for k=lo+1..hi in order, and the minimal proofs again on a tree re-opened on the same bucket; every genuine Add must be accepted exactly as on a control tree that never saw the failed Add. evaluation = one case; non-trivial = distinct (sequence, kind, N, l)", maxN, constN, small, small, small, maxN, c.maxSmall, c.readd, forkAll, warmAll, small, poisonAll, poisonSingle))
+	r.Rule(fmt.Sprintf("hash sequence h_i = SHA3(i) ('distinct') for N = 0..%d and the constant sequence ('constant', positive checks only) for N = 0..%d; phase 1: header after every add of a live accumulator and of one re-opened from its buckets before every add, against the reference root; in every situation ALL header-returning entry points are compared with the reference: Len, GetMerkleHeader and Finalize in both orders and repeated, proofs of the first and last key against the finalized header, and the view of an accumulator re-opened from the buckets; phase 1 also on a live accumulator finalized after every add; phase 2 on exact copies of the buckets after N adds: 'header' every N (re-opened, also after the no-op SetLen(N)); 'proof' every N<=%d with every key, larger N with key boundaries and every 16th key: Prove(key,0) accepted by a fresh tree made from the header, and for the distinct sequence rejected with another hash, as key+1/key-1, with one byte flipped in each level, with each level dropped; keys in order with Prove(key,-1) into one tree (N<=%d and the special N); 'rewind' SetLen(l): every pair l<=N<=%d, for larger N: every l for N in {16^k-1,16^k,16^k+1,%d} and l in {0,N-1,N-15,N-16,N-17,16^k-1,16^k,16^k+1} for every N; each rewind on two copies (Finalize asked first / GetMerkleHeader asked first; for odd N+l the N-state is finalized before the rewind): immediately after SetLen(l), before any Add, all entry points incl. the re-opened view (for l=0 the re-opened view is only an observation) = reference of the prefix; SetLen(l+1) fails; re-add (all up to N for N<=%d, else %d) with all entry points after every add; proofs of keys l-1,l; second rewind to l/2 with all entry points; 'fork' (distinct sequence): every l<N<=%d and the boundary l (0,1,N-1,N-2,N-15..N-17,16^k-1..16^k+1, multiples of 16) for larger N: all entry points asked at N, SetLen(l), DIFFERENT hashes added, 3 variants (no query before reaching N again then N+1; grown to N+2 and rewound to N; queries at an intermediate length), all entry points incl. proofs of the new leaves against the reference of the forked sequence; 'warm' (distinct sequence): every N<=%d and N in {272,300, 16^k-1,16^k,16^k+1, max} x every warm-up key w (N<=%d: all keys, else boundaries and every 16th) x 2 warm-up modes (full proof of w on an empty tree / keys 0..w in order with minimal proofs) on ONE tree instance x targets t in {w, w+-1, w+-16, w+-256, ends of w's 16- and 256-block, 0, N-1} x every proof depth Prove(t,from), from=-1,0..level x EVERY proof element: one byte flipped / replaced by another key's node must be rejected, also a wrong hash; afterwards the genuine proofs with known upper part are accepted; 'poison' (distinct sequence): every N<=%d and N in {272,300,special}: start states of one verifier tree {cold, full proof of w, keys 0..w in order; w in {0,1,15,16,17,N/2,N-1}} x ONE failing Add (N<=%d; for all N also ALL failing Adds in a row): every legal-length genuine partial proof Prove(t,from>=1) whose omitted upper nodes are unknown in that state, each of its elements with a flipped byte, each element of the full proof with a flipped byte (t = neighbours of w; cold: all keys for N<=40 else boundaries and every 16th) - then the genuine script on the same instance: Prove(t,0), Prove(lo,0), Prove(k,-1) for k=lo+1..hi in order, and the minimal proofs again on a tree re-opened on the same bucket; every genuine Add must be accepted exactly as on a control tree that never saw the failed Add. 'retained': three live accumulators grow to %d hashes; at EVERY length L<=%d the headers returned by Finalize / GetMerkleHeader (and for L<=64 and special L the proofs Prove(0,0), Prove(L-1,0)) are KEPT with an immediate deep copy, and after EVERY further Add each kept result must still equal its copy and the reference of the first L hashes. evaluation = one case; non-trivial = distinct (sequence, kind, N, l)", maxN, constN, small, small, small, maxN, c.maxSmall, c.readd, forkAll, warmAll, small, poisonAll, poisonSingle, retainTop, retainUpTo))
 	r.Assume("reference root: groups of 16 hashed level by level with SHA3-256 until one hash is left; a single hash is its own root", "storage: an in-memory db.Bucket of the harness that copies on Set and Get", "'rejected' means Add returns any error (ErrVerify and other errors are counted separately)")
 
 	seqs := []*c28Seq{}
@@ -1174,9 +1306,19 @@ func TestVerifC28(t *testing.T) {
 	if s := c.build("constant", false, constN); s != nil {
 		seqs = append(seqs, s)
 	}
+	if len(seqs) > 0 && !ev.Replaying() {
+		c.retainedFamily(seqs[0], retainTop, retainUpTo)
+		r.Eval(retainUpTo + 1)
+		r.Nontrivial("retained")
+	}
 	if ev.Replaying() {
 		var cs C28Case
 		ev.ReplayCase(&cs)
+		if cs.Kind == "retained" && len(seqs) > 0 {
+			c.retainedFamily(seqs[0], retainTop, retainUpTo)
+			r.Finish(false)
+			return
+		}
 		for _, s := range seqs {
 			if s.name != cs.Seq {
 				continue
@@ -1344,6 +1486,7 @@ func TestVerifC28(t *testing.T) {
 	}
 	r.Sanity(len(seqs) == 2, "a sequence could not be built")
 	r.Sanity(skipped > 0 || c.get("forks") > 0, "no fork case ran")
+	r.Sanity(c.get("retained_results_kept") > 0 && c.get("retained_comparisons") > 0, "no retained result compared")
 	r.Sanity(skipped > 0 || (c.get("poison_single_failed_add_cases") > 0 && c.get("poison_all_failed_adds_cases") > 0 && c.get("poison_failed_with_other_error")+c.get("poison_failed_with_ErrVerify") > 0), "no failed-Add-then-genuine case ran")
 	r.Sanity(skipped > 0 || (c.get("warm_cases") > 0 && c.get("warm_genuine_accepted") > 0), "no warm-up case ran")
 	r.Sanity(c.get("full_proofs_accepted") > 0 && c.get("partial_proofs_accepted") > 0, "no proof accepted")
